@@ -342,50 +342,57 @@ func (vc *VC) query(o *Obligation, withModel bool) string {
 		t := implies(a.pc, a.fact).S
 		cand = append(cand, asm{t, symsOf(t), a.what})
 	}
-	need := map[string]bool{}
-	var work []string
-	add := func(ss []string) {
-		for _, s := range ss {
-			if !need[s] {
-				need[s] = true
-				work = append(work, s)
-			}
+	// union-find over symbols: a definition links its name with the symbols of
+	// its body, an assumption links all symbols it mentions. The cone is the
+	// union of the components of the goal's and the path condition's symbols.
+	parent := map[string]string{}
+	var find func(s string) string
+	find = func(s string) string {
+		p, ok := parent[s]
+		if !ok {
+			parent[s] = s
+			return s
+		}
+		if p == s {
+			return s
+		}
+		r := find(p)
+		parent[s] = r
+		return r
+	}
+	union := func(a, b string) {
+		ra, rb := find(a), find(b)
+		if ra != rb {
+			parent[ra] = rb
 		}
 	}
-	add(symsOf(o.pc.S))
+	for i, name := range vc.declName {
+		for _, s := range vc.declSyms[i] {
+			union(name, s)
+		}
+	}
+	for _, c := range cand {
+		for _, s := range c.syms[min(1, len(c.syms)):] {
+			union(c.syms[0], s)
+		}
+	}
+	roots := map[string]bool{}
+	goalSyms := symsOf(o.pc.S)
 	if !o.Cover {
-		add(symsOf(o.goal.S))
+		goalSyms = append(goalSyms, symsOf(o.goal.S)...)
+	}
+	for _, s := range goalSyms {
+		roots[find(s)] = true
+	}
+	need := map[string]bool{}
+	for _, name := range vc.declName {
+		if roots[find(name)] {
+			need[name] = true
+		}
 	}
 	usedAsm := make([]bool, len(cand))
-	for {
-		for len(work) > 0 {
-			s := work[len(work)-1]
-			work = work[:len(work)-1]
-			if i, ok := vc.declIdx[s]; ok {
-				add(vc.declSyms[i])
-			}
-		}
-		changed := false
-		for i, c := range cand {
-			if usedAsm[i] {
-				continue
-			}
-			hit := len(c.syms) == 0
-			for _, s := range c.syms {
-				if need[s] {
-					hit = true
-					break
-				}
-			}
-			if hit {
-				usedAsm[i] = true
-				add(c.syms)
-				changed = true
-			}
-		}
-		if !changed && len(work) == 0 {
-			break
-		}
+	for i, c := range cand {
+		usedAsm[i] = len(c.syms) == 0 || roots[find(c.syms[0])]
 	}
 	var b strings.Builder
 	b.WriteString("(set-option :produce-models true)\n(set-logic ALL)\n")
